@@ -363,6 +363,20 @@ package setec
 //@   ensures [C18 clientput.one-request] httpCalls == old(httpCalls) || httpCalls == old(httpCalls) + 1
 //@   at call do: assert [C18 clientput.sends-exactly-the-value] arg_req.Name == name && bytes(arg_req.Value) == bytes(value) && arg_path == "/api/put"
 
+// the remaining client methods: each sends exactly one request, to the endpoint of its name, carrying its arguments
+//@ func (Client).GetVersion(c, ctx, name, version) (sv, err)
+//@   at call do: assert [C18 clientgetversion.request] arg_req.Name == name && arg_req.Version == version && !arg_req.UpdateIfChanged && arg_path == "/api/get"
+//@ func (Client).List(c, ctx) (infos, err)
+//@   at call do: assert [C08 clientlist.request] arg_path == "/api/list"
+//@ func (Client).Info(c, ctx, name) (info, err)
+//@   at call do: assert [C08 clientinfo.request] arg_req.Name == name && arg_path == "/api/info"
+//@ func (Client).Activate(c, ctx, name, version) (err)
+//@   at call do: assert [C08 clientactivate.request] arg_req.Name == name && arg_req.Version == version && arg_path == "/api/activate"
+//@ func (Client).DeleteVersion(c, ctx, name, version) (err)
+//@   at call do: assert [C08 clientdeleteversion.request] arg_req.Name == name && arg_req.Version == version && arg_path == "/api/delete-version"
+//@ func (Client).Delete(c, ctx, name) (err)
+//@   at call do: assert [C08 clientdelete.request] arg_req.Name == name && arg_path == "/api/delete"
+
 // ---- updaters (generic: verified on the generic body, T opaque) ------------------------------
 //@ func (*Updater).Get(u) (v)
 //@   requires u != nil && !u.mu && u.newValue != nil && u.logf != nil && u.w.Secret != nil
